@@ -193,6 +193,13 @@ impl Server {
     /// Send one request with a single write and read until the server closes (or the time limit).
     pub fn roundtrip(&self, request: &[u8], limit: Duration) -> Exchange {
         let mut s = match self.connect() { Ok(s) => s, Err(e) => return Exchange { bytes: vec![], outcome: Outcome::ConnectFailed(e.to_string()) } };
+        if request.len() > 32768 {
+            // far more than the server's buffer: the tail is written by a second thread while the response is read (a client that only writes would wait for a
+            // server that only writes); the writer gives up at the limit, and earlier as soon as the server has closed or reset the connection
+            if let Err(e) = s.write_all(&request[..16384]) { return Exchange { bytes: vec![], outcome: Outcome::WriteFailed(e.to_string()) }; }
+            if let Ok(mut w) = s.try_clone() { let _ = w.set_write_timeout(Some(limit)); let rest = request[16384..].to_vec(); std::thread::spawn(move || { let _ = w.write_all(&rest); }); }
+            return read_all(&mut s, limit);
+        }
         if let Err(e) = s.write_all(request) { return Exchange { bytes: vec![], outcome: Outcome::WriteFailed(e.to_string()) }; }
         // nothing to send: half-close, otherwise the server (which has no read timeout) and this client wait for each other
         if request.is_empty() { let _ = s.shutdown(std::net::Shutdown::Write); }
